@@ -445,6 +445,7 @@ def run(ctx):
     # whole solves with the real steps, as canonical forms (solver_replay.py)
     from . import solver_replay
     ctx.guard(solver_replay.r13_8)
+    ctx.guard(solver_replay.r13_9)
 
 
 EXPLANATION = EXPLANATION + " " + (
